@@ -347,6 +347,14 @@ def fp_diff(a, b, sim_read):
     return None
 
 
+def module_name_noinst(D, obj):
+    try:
+        f = D.el.eval_name('getVerilogModuleName', RTL)
+        return D.el.call(f, [obj], dict(noInstanceNumber=True), {})
+    except Exception:
+        return None
+
+
 def check_f(ctx, facts, sm, tier, seed):
     """C19.f: the generator is structure-only code and is evaluated by the abstract interpreter; so is the property:
     requests are repeated, interleaved with other circuits and with changes of the simulation state, made from
@@ -467,6 +475,32 @@ def check_f(ctx, facts, sm, tier, seed):
                 mb = split_modules(tb)
                 ctx.violation('C19.f', 'same-generator:%s' % name.split(' ')[0], 'the second request to one generator object yields a different design (modules missing: %s)'
                               % sorted(set(m1) - set(mb))[:4], where, witness=dict(design=name, history='g = VerilogGenerator(top); g.getVerilogForHierarchy(); g.getVerilogForHierarchy()'))
+                continue
+            # a request for a sub-block must not redirect later default requests of the same generator
+            subs = non_inlined_objects(D, g0, None)
+            if subs:
+                D.el.call(D.el.getattr_(g0, 'getVerilogForHierarchy'), [subs[-1]], {}, {})
+                tc = D.el.call(D.el.getattr_(g0, 'getVerilogForHierarchy'), [], {}, {})
+                if split_modules(tc) != m1:
+                    ctx.violation('C19.f', 'default-after-subblock:%s' % name.split(' ')[0], 'after a request for a sub-block, the default request of the same generator no longer describes the generator\'s own circuit',
+                                  where, witness=dict(design=name, history='g.getVerilogForHierarchy(sub); g.getVerilogForHierarchy()', modules_now=sorted(split_modules(tc))[:5], modules_expected=sorted(m1)[:5]))
+                    continue
+            # a list of already emitted modules supplied by the caller is filled (so that a second file does not define them again) and honoured
+            shared_list = []
+            g1 = generator(D)
+            td = D.el.call(D.el.getattr_(g1, 'getVerilogForHierarchy'), [], dict(createdStructures=shared_list), {})
+            md = split_modules(td)
+            nontop = [k for k in md if not any(k == module_name_noinst(D, D.sys) for _ in (0,))]
+            if len(md) > 1 and len(shared_list) == 0:
+                ctx.violation('C19.f', 'shared-module-list:%s' % name.split(' ')[0], 'the caller\'s list of already emitted modules is not filled (an empty list is dropped): a second run sharing it defines the same modules again',
+                              where, witness=dict(design=name, modules_emitted=sorted(md)[:6], list_after_the_run=list(shared_list)))
+                continue
+            g2 = generator(D)
+            te = D.el.call(D.el.getattr_(g2, 'getVerilogForHierarchy'), [], dict(createdStructures=shared_list), {})
+            again = [k for k in split_modules(te) if k in md and k in [str(x) for x in shared_list]]
+            if again:
+                ctx.violation('C19.f', 'shared-module-list:%s' % name.split(' ')[0], 'modules recorded in the caller\'s list are emitted again by the next run: %s' % again[:4], where,
+                              witness=dict(design=name))
                 continue
             perturb(D)
             t3 = hierarchy_text(D)
